@@ -1278,9 +1278,11 @@ def check_C14(rep, tier):
     rep.cov["call_outcomes"] = outcomes
     # vacuity: the usual document of every kind must get THROUGH each entry point (an all-default layout verifies, an
     # all-default link file is accepted), otherwise the unusual fields are never reached
+    # (a run that already has violations to report - a dead worker takes the rest of its shard with it - is not held
+    # to this: the violations are the result)
     for need in ("layout/final_product_verification/value", "linkfile/final_product_verification/value",
                  "linkfile/block_verify/value", "keymat/key_import/value"):
-        if not outcomes.get(need):
+        if not outcomes.get(need) and not rep.violations:
             raise ToolError(f"vacuous C14 lattice: no call with outcome {need}")
     total, rejected, tst = validate_trace(trace, "Trace_Robust", "Trace_Robust.cfg", "t14", reset_ev="doc")
     rep.cov["traces_validated_against_impl"] = total - len(rejected)
